@@ -24,6 +24,14 @@ BRIDGE = 'parser_cpp/logica_parse_cpp.py'
 
 MUTATIONS = {
     'C15': [
+        ('strip_no_restrip_between_layers', PY,
+         "  while True:\n    s = StripSpaces(s)\n    if (len(s) >= 2 and s[0] == '(' and s[-1] == ')' and\n        IsWhole(s[1:-1])):\n      s = s[1:-1]\n    else:\n      return s\n", "  s = StripSpaces(s)\n  while (len(s) >= 2 and s[0] == '(' and s[-1] == ')' and\n         IsWhole(s[1:-1])):\n    s = s[1:-1]\n  return StripSpaces(s)\n",
+         'Strip strips blanks once, peels parentheses in a loop, strips once '
+         'more: "( (e) )" with layout between the layers breaks (PY)'),
+        ('bridge_astral_counts_two', BRIDGE,
+         '      if (byt & 0xC0) != 0x80:\n        chars += 1\n', '      if (byt & 0xC0) != 0x80:\n        chars += 2 if byt >= 0xF0 else 1\n',
+         '_DecodePooledHeritageOutput counts a 4-byte UTF-8 character as two '
+         'characters: spans after it shift (CPP bridge)'),
         ('strip_keeps_parens', PY,
          "    if (len(s) >= 2 and s[0] == '(' and s[-1] == ')' and\n"
          "        IsWhole(s[1:-1])):\n      s = s[1:-1]\n",
@@ -60,6 +68,14 @@ MUTATIONS = {
          'C++ Traverser no longer recognises block comments (CPP)'),
     ],
     'C06': [
+        ('strip_no_restrip_between_layers', PY,
+         "  while True:\n    s = StripSpaces(s)\n    if (len(s) >= 2 and s[0] == '(' and s[-1] == ')' and\n        IsWhole(s[1:-1])):\n      s = s[1:-1]\n    else:\n      return s\n", "  s = StripSpaces(s)\n  while (len(s) >= 2 and s[0] == '(' and s[-1] == ')' and\n         IsWhole(s[1:-1])):\n    s = s[1:-1]\n  return StripSpaces(s)\n",
+         'Strip strips blanks once, peels parentheses in a loop, strips once '
+         'more: "( (e) )" with layout between the layers breaks (PY)'),
+        ('bridge_astral_counts_two', BRIDGE,
+         '      if (byt & 0xC0) != 0x80:\n        chars += 1\n', '      if (byt & 0xC0) != 0x80:\n        chars += 2 if byt >= 0xF0 else 1\n',
+         '_DecodePooledHeritageOutput counts a 4-byte UTF-8 character as two '
+         'characters: spans after it shift (CPP bridge)'),
         ('cpp_operator_order', CPP,
          '"->", "==", "<=", ">=", "<", ">", "!=",',
          '"->", "==", "<", ">", "<=", ">=", "!=",',
